@@ -46,6 +46,50 @@ var c15Changed string
 // c15Stalled is set when sender and receiver of a batch did not both return
 var c15Stalled bool
 
+// c15Second, when set, adds a second flip in the same column to the next tampered batch
+var c15Second *struct {
+	where string
+	row   int
+}
+
+// c15Interlude runs an honest batch of another kind on the current pair (packed bits, or labels without the
+// consistency check): the malicious-mode batches around it must be unaffected.
+func c15Interlude(rng *rand.Rand, kind string) string {
+	p := c15Pair
+	if p == nil {
+		return ""
+	}
+	p.rIO.tamper, p.rIO.tamperLabel = nil, nil
+	n := 70 + rng.Intn(600)
+	var wg sync.WaitGroup
+	var es, er error
+	wg.Add(2)
+	if kind == "bits" {
+		words := (n + 63) / 64
+		go func() { defer wg.Done(); es = p.s.SendBits(n, make([]uint64, words)) }()
+		go func() {
+			defer wg.Done()
+			ch := make([]uint64, words)
+			for i := range ch {
+				ch[i] = rng.Uint64()
+			}
+			er = p.r.ReceiveBits(ch, make([]uint64, words), n)
+		}()
+	} else {
+		flags := choicePattern(rand.New(rand.NewSource(rng.Int63())), n, "rand")
+		go func() { defer wg.Done(); _, es = p.s.Send(n, false) }()
+		go func() { defer wg.Done(); er = p.r.Receive(flags, make([]ot.Label, n), false) }()
+	}
+	if !waitOrStall(&wg, 60*time.Second) {
+		c15Pair = nil
+		return "stalls"
+	}
+	if es != nil || er != nil {
+		return fmt.Sprintf("fails: %v / %v", es, er)
+	}
+	return ""
+}
+
 // c15Batch runs one malicious-mode batch with an optional flip.  The pair is reused for many batches: the
 // sender reads every chunk before it checks, so the PRG streams stay in lock step also after an abort.
 func c15Batch(rng *rand.Rand, n int, flags []bool, where string, col, row int, respIdx, respBit int) (*iknpPair, bool, bool, error) {
@@ -70,24 +114,36 @@ func c15Batch(rng *rand.Rand, n int, flags []bool, where string, col, row int, r
 		// the matrix travels in chunks of cr rows (512 at the pinned commit; measured), one message per chunk,
 		// column-major inside a chunk
 		cr := iknpChunkRowsMemoOr512()
-		msg := row / cr
-		rowsIn := n - cr*msg
-		if rowsIn > cr {
-			rowsIn = cr
+		type flip struct{ msg, byteAt, bit int }
+		locate := func(where string, col, row int) flip {
+			msg := row / cr
+			rowsIn := n - cr*msg
+			if rowsIn > cr {
+				rowsIn = cr
+			}
+			br := byteRowsOf(rowsIn)
+			if where == "check" {
+				msg = (n + cr - 1) / cr
+				br = byteRowsOf(256)
+			} else {
+				row = row % cr
+			}
+			return flip{msg, col*br + row/8, row % 8}
 		}
-		br := byteRowsOf(rowsIn)
-		if where == "check" {
-			msg = (n + cr - 1) / cr
-			br = byteRowsOf(256)
-		} else {
-			row = row % cr
+		flips := []flip{locate(where, col, row)}
+		if c15Second != nil {
+			// a second flip in the same column (of the payload or of the check batch)
+			flips = append(flips, locate(c15Second.where, col, c15Second.row))
+			c15Second = nil
 		}
 		p.rIO.mu.Lock()
 		base := len(p.rIO.sentData)
 		p.rIO.mu.Unlock()
 		p.rIO.tamper = func(idx int, b []byte) []byte {
-			if idx == base+msg && col*br+row/8 < len(b) {
-				b[col*br+row/8] ^= 1 << uint(row%8)
+			for _, f := range flips {
+				if idx == base+f.msg && f.byteAt < len(b) {
+					b[f.byteAt] ^= 1 << uint(f.bit)
+				}
 			}
 			return b
 		}
@@ -208,12 +264,20 @@ func c15Main(args []string) error {
 	for _, n := range []int{1, 8, 9, 129, 512, 513, 1024, 1025, 1100, 2049} {
 		for _, pat := range []string{"rand", "ones", "firstchunk"} {
 			res := &Result{Case: idx, Class: "honest", Nontrivial: n > 1024}
+			inter := map[string]string{"ones": "bits", "firstchunk": "labels"}[pat]
+			if inter != "" {
+				// a batch of packed bits / of labels without the check on the same pair in between
+				if d := c15Interlude(rng, inter); d != "" {
+					res.viol("honest-abort:interlude", "an honest %s batch between malicious-mode batches %s", inter, d)
+				}
+				res.Class = "honest-after-" + inter
+			}
 			_, acc, ok, err := c15Batch(rng, n, choicePattern(rng, n, pat), "none", 0, 0, 0, 0)
 			if err != nil {
 				return err
 			}
 			if !acc {
-				res.viol("honest-abort", "an honest malicious-mode execution aborts (n=%d, choices %s)", n, pat)
+				res.viol("honest-abort", "an honest malicious-mode execution aborts (n=%d, choices %s, after a %s batch on the pair)", n, pat, inter)
 			} else if !ok {
 				res.viol("correlation:labels", "honest malicious-mode execution n=%d: outputs violate the correlation", n)
 			}
@@ -327,6 +391,53 @@ func c15Main(args []string) error {
 				}
 				emit(res, kosEv{Ev: "run", N: n, Where: "payload", Col: col, Row: row, DeltaCol: dcol, Used: 1, Accepted: b2i(acc), CorrOK: b2i(ok)})
 			}
+		}
+	}
+	// two flips in one column whose challenge coefficients would coincide if the challenge stream restarted: payload
+	// row i with check row i, and payload rows one challenge block (1024 rows) apart
+	type pairCase struct {
+		n, row int
+		where2 string
+		row2   int
+	}
+	var pcs []pairCase
+	for _, n := range []int{8, 129, 1100} {
+		for _, i := range []int{0, 5, 127} {
+			if i < n {
+				pcs = append(pcs, pairCase{n, i, "check", i})
+			}
+		}
+	}
+	for _, n := range []int{1100, 2049, 2100} {
+		for _, i := range []int{0, 17, n - 1025} {
+			pcs = append(pcs, pairCase{n, i, "payload", i + 1024})
+		}
+	}
+	for _, pc := range pcs {
+		flags := choicePattern(rng, pc.n, "rand")
+		for _, col := range []int{0, 1, 64, 127, rng.Intn(128), rng.Intn(128)} {
+			if nviol >= 6 {
+				return nil
+			}
+			res := &Result{Case: idx, Class: "flip:pair:" + pc.where2, Nontrivial: true}
+			c15Second = &struct {
+				where string
+				row   int
+			}{pc.where2, pc.row2}
+			p, acc, ok, err := c15Batch(rng, pc.n, flags, "payload", col, pc.row, 0, 0)
+			if err != nil {
+				return err
+			}
+			dcol := int(p.delta.Bit(col))
+			switch {
+			case acc && !ok:
+				res.viol("accepted-inconsistent", "n=%d: flips of (column %d, payload row %d) and (column %d, %s row %d) together are accepted although the outputs no longer satisfy the correlation (Delta selects the column: %v)", pc.n, col, pc.row, col, pc.where2, pc.row2, dcol == 1)
+			case acc && dcol == 1:
+				res.viol("accepted-inconsistent", "n=%d: flips of (column %d, payload row %d) and (column %d, %s row %d), in a column Delta selects, are silently accepted", pc.n, col, pc.row, col, pc.where2, pc.row2)
+			case !acc && dcol == 0:
+				res.drift("n=%d: two flips in column %d abort although Delta does not select the column", pc.n, col)
+			}
+			emit(res, kosEv{Ev: "run", N: pc.n, Where: "payload", Col: col, Row: pc.row, DeltaCol: dcol, Used: 1, Accepted: b2i(acc), CorrOK: b2i(ok)})
 		}
 	}
 	return nil
